@@ -140,6 +140,7 @@ var Numerals = []Val{
 	{Kind: "N", NTxt: "1790000000123456789"}, {Kind: "N", NTxt: "-9007199254740993"},
 	{Kind: "N", NTxt: "0.12345678901234567890123456789012345678"}, {Kind: "N", NTxt: "9.9999999999999999999999999999999999999e125"},
 	{Kind: "N", NTxt: "1e-130"}, {Kind: "N", NTxt: "0.1"},
+	{Kind: "N", NTxt: "2.5e10"}, {Kind: "N", NTxt: "1.25E+20"}, {Kind: "N", NTxt: "1.50e-10"}, {Kind: "N", NTxt: "-0.00"},
 }
 
 // GenTree draws an attribute-value tree: any of the ten types, containers nested up to depth levels with
@@ -173,7 +174,8 @@ func GenTree(name string, depth, width int) Val {
 		case "SS":
 			return Val{Kind: "SS", SS: []string{nd.StringN(name+".ss", nd.Choice(name+".sslen", 2))}}
 		case "NS":
-			return Val{Kind: "NS", NS: []int64{7}}
+			// a small member or one of more than 15 digits
+			return Val{Kind: "NS", NS: []int64{[]int64{7, 1234567890123456789}[nd.Choice(name+".nsmember", 2)]}}
 		case "BS":
 			return Val{Kind: "BS", BS: [][]byte{nd.Bytes(name+".bs", 1)}}
 		}
